@@ -214,17 +214,29 @@ def r4(tree, rep):
     bt = [c for c in ast.walk(fn) if isinstance(c, ast.Call) and isinstance(c.func, ast.Attribute) and c.func.attr == "beginFileTransfer"]
     ok = len(bt) == 1 and okh
     if ok:
+        from ..astutil import callback_function
         tr = call_arg(bt[0], None, "transform")
-        cb = [f for f in tf if isinstance(tr, ast.Name) and f.name == tr.id]
-        ok = len(cb) == 1
-        if ok:
-            cbf = cb[0]
-            p = params(cbf, skip_self=False)
-            ups = [c for c in ast.walk(cbf) if isinstance(c, ast.Call) and dotted(c.func) == "%s.update" % hv]
+        cbf = callback_function(tr, fn, tree.methods(TX, "Sender")) if tr is not None else None
+        ok = isinstance(cbf, (ast.FunctionDef, ast.Lambda))
+        if ok and isinstance(cbf, ast.FunctionDef):
+            # a closure of _send_file (sees the hasher directly) or a method / function given the hasher through partial(..)
+            p = params(cbf, skip_self=True) if cbf not in tf else params(cbf, skip_self=False)
+            bound = list(tr.args[1:]) if isinstance(tr, ast.Call) else []
+            hname = hv
+            got_hasher = cbf in tf
+            for prm, val in zip(p, bound):
+                if isinstance(val, ast.Name) and val.id == hv:
+                    hname = prm
+                    got_hasher = True
+            free = p[len(bound):]
+            ups = [c for c in ast.walk(cbf) if isinstance(c, ast.Call) and dotted(c.func) == "%s.update" % hname]
             rets = [r for r in ast.walk(cbf) if isinstance(r, ast.Return)]
-            ok = len(p) == 1 and len(ups) == 1 and isinstance(ups[0].args[0], ast.Name) and ups[0].args[0].id == p[0] \
-                and len(rets) == 1 and isinstance(rets[0].value, ast.Name) and rets[0].value.id == p[0] and not local_defs(cbf, p[0]) \
+            ok = len(free) == 1 and len(ups) == 1 and isinstance(ups[0].args[0], ast.Name) and ups[0].args[0].id == free[0] \
+                and len(rets) == 1 and isinstance(rets[0].value, ast.Name) and rets[0].value.id == free[0] and not local_defs(cbf, free[0]) \
+                and not local_defs(cbf, hname) and got_hasher \
                 and not any(isinstance(x, (ast.If, ast.Try, ast.While, ast.For)) for x in ast.walk(cbf))
+        elif ok:
+            ok = False          # a lambda cannot both hash and return the chunk
         src = call_arg(bt[0], 0, "file")
         dst = call_arg(bt[0], 1, "consumer")
         ok = ok and is_self_attr(src, "_fd_to_send") and isinstance(dst, ast.Name) and isinstance(parent(bt[0]), (ast.Yield, ast.Await))
